@@ -719,6 +719,75 @@ def replay_prank_eoa(r):
     return {"reproduced": False, "detail": "a one-shot prank is consumed by a call to an account without code"}
 
 
+def replay_etch_transient(r):
+    """native, real handler: tstore on an account, then vm.etch on it: the transient value must still be there"""
+    from contracts.common import mk_ex, mk_sevm
+
+    sevm = mk_sevm()
+    ex = mk_ex(sevm, b"\x00")
+    who = z3.BitVecVal(0x1234, 160)
+    ex.set_code(who, ByteVec(b"\x00"))
+    ex.storage[who] = sevm.mk_storagedata()
+    ex.transient_storage[who] = sevm.mk_storagedata()
+    sevm.sstore(ex, who, hb.HalmosBitVec(2), hb.HalmosBitVec(0x66))
+    sevm.sstore(ex, who, hb.HalmosBitVec(1), hb.HalmosBitVec(5), transient=True)
+    code = b"\x60\x00"
+    data = hc.hevm_cheat_code.etch_sig.to_bytes(4, "big") + (0x1234).to_bytes(32, "big") + (64).to_bytes(32, "big") + len(code).to_bytes(32, "big") + code.ljust(32, b"\x00")
+    hc.hevm_cheat_code.handle(sevm, ex, ByteVec(data), None)
+    t = sevm.sload(ex, who, hb.HalmosBitVec(1), transient=True)
+    p = sevm.sload(ex, who, hb.HalmosBitVec(2))
+    tv, pv = (x.as_z3() if hasattr(x, "as_z3") else x for x in (t, p))
+    tv, pv = z3.simplify(tv), z3.simplify(pv)
+    bad = not (z3.is_bv_value(tv) and tv.as_long() == 5 and z3.is_bv_value(pv) and pv.as_long() == 0x66)
+    return {"reproduced": bad, "detail": f"tstore(1, 5); sstore(2, 0x66) on account 0x1234, then vm.etch(0x1234, code): tload(1) = {tv}, sload(2) = {pv} (an etch is not a store: 5 and 0x66 expected)", "inputs": "tstore; etch; tload"}
+
+
+def etch_cases():
+    """vm.etch(who, code): the code of `who` becomes `code`; storage and transient storage of an existing account are left as they are
+    (etch is not a store), a new account gets empty ones; no other account is touched"""
+    out = []
+    for existing in (True, False):
+
+        def harness(interp, existing=existing):
+            ctx = interp.ctx
+            fn, arm = _handle_arm("etch_sig")
+            WHO, OTHER = 0x1234, 0x9999
+            code = ByteVec(b"\x60\x00\x00")
+
+            class Arg:
+                def get_word(self, off):
+                    return hb.HalmosBitVec({4: WHO, 36: 64, 68: 3}[off])
+
+                def __getitem__(self, key):
+                    assert isinstance(key, slice) and (key.start, key.stop) == (4 + 64 + 32, 4 + 64 + 32 + 3), key
+                    return code
+
+            who_t, other_t = z3.BitVecVal(WHO, 160), z3.BitVecVal(OTHER, 160)
+            S, T, S2, T2 = NS(tag="storage of who"), NS(tag="transient of who"), NS(tag="storage of other"), NS(tag="transient of other")
+            storage = {other_t: S2}
+            transient = {other_t: T2}
+            if existing:
+                storage[who_t] = S
+                transient[who_t] = T
+            set_calls = []
+            ex = NS(storage=storage, transient_storage=transient, set_code=lambda w, c: set_calls.append((w, c)))
+            fresh = []
+            sevm = NS(mk_storagedata=lambda: (fresh.append(NS(tag="empty")), fresh[-1])[1])
+            ret = ByteVec()
+            env = Env({"ex": ex, "arg": Arg(), "ret": ret, "funsig": hc.hevm_cheat_code.etch_sig, "sevm": sevm, "stack": NS()}, None, fn.__globals__)
+            k, payload, _ = interp.exec_fragment(arm.body, env, qual="halmos.cheatcodes:hevm_cheat_code.handle#etch", is_gen=False)
+            ctx.oblige("etch returns empty data", z3.BoolVal(k == "return" and payload is ret), info={"kind": k, "payload": str(payload)[:100]})
+            ctx.oblige("etch sets the code of the targeted account, once, to the supplied bytes", z3.BoolVal(len(set_calls) == 1 and z3.eq(set_calls[0][0], who_t) and set_calls[0][1] is code))
+            if existing:
+                ctx.oblige("etch on an existing account leaves its storage AND its transient storage as they are (etch is not a store)", z3.BoolVal(storage.get(who_t) is S and transient.get(who_t) is T))
+            else:
+                ctx.oblige("etch on a new account gives it empty storage and empty transient storage", z3.BoolVal(storage.get(who_t) in fresh and transient.get(who_t) in fresh and storage.get(who_t) is not transient.get(who_t)))
+            ctx.oblige("etch touches the targeted account only", z3.BoolVal(storage.get(other_t) is S2 and transient.get(other_t) is T2 and set(storage) == set(transient) == {who_t, other_t}))
+
+        out.append(Case(f"{PROP}/cheatcodes.hevm_cheat_code.handle#etch", "existing account" if existing else "new account", harness, replay=replay_etch_transient, sources=("halmos.cheatcodes:hevm_cheat_code.handle",)))
+    return out
+
+
 def replay_default_block(r):
     """native: the block of one test contract's deployment is written by vm.warp; the next contract's deployment must read the default"""
     import halmos.__main__ as hm
@@ -766,7 +835,9 @@ def build_cases(tier="quick"):
     from contracts.common import rewrap
 
     ref += rewrap(PROP, c02.alias_cases(), "etch-visible-through-aliases", lambda c: "set_code" in c.case)
-    return default_block_cases() + prank_cases() + resolve_prank_cases() + prank_arm_cases() + setter_cases() + create_cases() + call_prank_cases() + ref
+    # vm.store / vm.load: a store changes the targeted slot only, also on an account with arbitrary storage (C02/C08's unit)
+    ref += rewrap(PROP, c02.select_cases(), "store-touches-its-slot-only")
+    return etch_cases() + default_block_cases() + prank_cases() + resolve_prank_cases() + prank_arm_cases() + setter_cases() + create_cases() + call_prank_cases() + ref
 
 
 def grounds():
